@@ -53,6 +53,9 @@ import (
 //   get      [c, target]        Get(target) + route list bound
 //   hop      [c, target, mask]  GetNextHop(target, skips = nodes in bit mask)
 //   barrier                     clients join
+//   (concurrent plans also contain use-vs-delete blocks: save p / sleep /
+//    touch(p's route) by one or two clients || del p | delroute | gc by another /
+//    [sleep, gc 0] / reload or crash — see useKillBlock in c27Gen)
 //   reload   [gcAgeMs|-1]       new Table over the same store: ResumeRoutes, ResumePaths, (Gc)
 //   crash    [lost, gcAgeMs|-1] the store loses its last `lost` writes, then reload
 //
@@ -84,6 +87,7 @@ type c27Store struct {
 	m      map[string][]byte
 	log    []c27Undo
 	writes int
+	yield  int64 // bit 0: scheduling point before a Put lands, bit 1: before a Delete lands
 }
 
 var _ storage.StateStorer = (*c27Store)(nil)
@@ -185,6 +189,9 @@ func (s *c27Store) Put(key string, i interface{}) (err error) {
 	} else if b, err = json.Marshal(i); err != nil {
 		return err
 	}
+	if s.yield&1 != 0 {
+		gosim.Yield() // a store write takes time: others may run before it lands
+	}
 	s.mu.Lock()
 	prev, ex := s.m[key]
 	s.log = append(s.log, c27Undo{key, prev, ex})
@@ -195,6 +202,9 @@ func (s *c27Store) Put(key string, i interface{}) (err error) {
 }
 
 func (s *c27Store) Delete(key string) error {
+	if s.yield&2 != 0 {
+		gosim.Yield()
+	}
 	s.mu.Lock()
 	prev, ex := s.m[key]
 	s.log = append(s.log, c27Undo{key, prev, ex})
@@ -269,6 +279,8 @@ type c27Path struct {
 	saveSeq  int64         // logical time of the last SavePath invocation
 	touched  time.Duration // upper bound of its UsedTime (sim time)
 	touchSeq int64         // logical time of the last updateUsedTime that may have hit it
+	useBusy  int           // updateUsedTime calls in flight that may hit it (probe only)
+	killBusy int           // Delete / Gc calls in flight that cover it (probe only)
 	dead     bool          // definitely deleted / expired and not saved since
 	deadSeq  int64         // logical time at which the killing op had returned
 	deadW    int           // store write count when the killing op had returned
@@ -393,6 +405,7 @@ func (w *c27World) tab() *routetab.Table {
 type c27Kill struct {
 	d0   int64
 	cand []*c27Path
+	all  []*c27Path
 	how  string
 }
 
@@ -404,6 +417,11 @@ func (w *c27World) killBegin(how string, cand []*c27Path) *c27Kill {
 		if p.saveBusy == 0 {
 			k.cand = append(k.cand, p)
 		}
+		p.killBusy++
+		k.all = append(k.all, p)
+		if p.useBusy > 0 && p.saved && !p.dead {
+			w.r.Count("probe_use_kill_overlap")
+		}
 	}
 	return k
 }
@@ -412,6 +430,9 @@ func (w *c27World) killEnd(k *c27Kill) (n int) {
 	w.mu.Lock()
 	defer w.mu.Unlock()
 	w.seq++
+	for _, p := range k.all {
+		p.killBusy--
+	}
 	for _, p := range k.cand {
 		if p.saveBusy == 0 && p.saveSeq < k.d0 {
 			if k.how == "expired" && p.touchSeq >= k.d0 {
@@ -622,7 +643,7 @@ func c27Gen(rng *rand.Rand, tier string) *gosim.Plan {
 	nodes := 3 + rng.Intn(c27MaxNodes-2) // 3..8
 	alpha := 1 + rng.Intn(4)
 	clients := 1
-	if rng.Intn(2) == 0 {
+	if rng.Intn(5) < 3 {
 		clients = 2 + rng.Intn(2)
 	}
 	crashes := rng.Intn(10) < 5
@@ -631,6 +652,13 @@ func c27Gen(rng *rand.Rand, tier string) *gosim.Plan {
 	p.Params["maxttl"] = gosim.Pick(rng, 3, 4, 5, 6, 10)
 	p.Params["clients"] = int64(clients)
 	p.Params["self"] = int64(rng.Intn(nodes))
+	if clients > 1 {
+		// interleavings inside the table operations need voluntary yields
+		p.Params["yield_pct"] = gosim.Pick(rng, 0, 5, 5, 20, 20, 50, 100)
+		// where the state store offers an extra scheduling point (a write that
+		// has been issued but has not landed yet): nowhere / Put / Delete / both
+		p.Params["store_yield"] = gosim.Pick(rng, 0, 1, 1, 2, 3)
+	}
 	nOps := 15 + rng.Intn(60)
 	if tier == "thorough" {
 		nOps = 30 + rng.Intn(220)
@@ -679,7 +707,70 @@ func c27Gen(rng *rand.Rand, tier string) *gosim.Plan {
 	if clients > 1 {
 		killBoost = 12
 	}
+	// use-vs-delete block (concurrent plans): a route that is being used
+	// (updateUsedTime, as the relay does for every picked next hop) while the
+	// very same path is deleted (Delete / DelRoute) or expires (Gc), followed by
+	// a restart on the same store. Self-contained: it saves its path first and
+	// lets time pass, so that the use really refreshes the path.
+	useKillBlock := func() {
+		a := int64(rng.Intn(clients))
+		b := (a + 1 + int64(rng.Intn(clients-1))) % int64(clients)
+		var path []int64
+		if len(made) > 0 && rng.Intn(3) == 0 {
+			path = made[rng.Intn(len(made))]
+		}
+		if len(path) < 2 || len(path) > 3 {
+			path = make([]int64, 2+rng.Intn(2))
+			for i := range path {
+				path[i] = int64(rng.Intn(nodes))
+			}
+		}
+		made = append(made, path)
+		target, nb := path[rng.Intn(len(path)-1)], path[len(path)-1]
+		wait := gosim.Pick(rng, 1, 10, 1000)
+		p.Ops = append(p.Ops, gosim.Op{K: "save", A: append([]int64{a}, path...)},
+			gosim.Op{K: "barrier"},
+			gosim.Op{K: "sleep", A: []int64{a, wait}},
+			gosim.Op{K: "barrier"})
+		var blk []gosim.Op
+		for n := 1 + rng.Intn(3); n > 0; n-- {
+			u := a
+			if clients > 2 && rng.Intn(2) == 0 {
+				for u = int64(rng.Intn(clients)); u == b; u = int64(rng.Intn(clients)) {
+				}
+			}
+			blk = append(blk, gosim.Op{K: "touch", A: []int64{u, target, nb}})
+		}
+		switch x := rng.Intn(10); {
+		case x < 5:
+			blk = append(blk, gosim.Op{K: "del", A: append([]int64{b}, path...)})
+		case x < 7:
+			blk = append(blk, gosim.Op{K: "delroute", A: []int64{b, target}})
+		default:
+			blk = append(blk, gosim.Op{K: "gc", A: []int64{b, gosim.Pick(rng, 0, 0, wait-1)}})
+		}
+		rng.Shuffle(len(blk), func(i, j int) { blk[i], blk[j] = blk[j], blk[i] })
+		p.Ops = append(p.Ops, blk...)
+		p.Ops = append(p.Ops, gosim.Op{K: "barrier"})
+		if rng.Intn(3) == 0 {
+			// a later, undisputed expiry of everything
+			p.Ops = append(p.Ops, gosim.Op{K: "sleep", A: []int64{a, 1000}}, gosim.Op{K: "barrier"}, gosim.Op{K: "gc", A: []int64{b, 0}})
+		}
+		switch x := rng.Intn(10); {
+		case x < 6:
+			p.Ops = append(p.Ops, gosim.Op{K: "reload", A: []int64{-1}})
+		case x < 8 || !crashes:
+			p.Ops = append(p.Ops, gosim.Op{K: "reload", A: []int64{gosim.Pick(rng, 60000, 600000)}})
+		default:
+			p.Ops = append(p.Ops, gosim.Op{K: "crash", A: []int64{int64(1 + rng.Intn(3)), -1}})
+		}
+	}
 	for i := 0; i < nOps; i++ {
+		if clients > 1 && rng.Intn(100) < 14 {
+			useKillBlock()
+			i += 6
+			continue
+		}
 		c := int64(rng.Intn(clients))
 		x := rng.Intn(100)
 		if x < killBoost {
@@ -766,6 +857,7 @@ func c27Exec(r *gosim.Run) {
 	atomic.StoreInt32(&routetab.MaxTTL, int32(maxTTL))
 	self := w.addrs[w.node(r.Plan.P("self", 0))]
 	w.store = c27NewStore()
+	w.store.yield = r.Plan.P("store_yield", 0)
 	w.table = routetab.VerifNewTable(self, w.store)
 	sequential := r.Plan.P("clients", 1) <= 1
 
@@ -853,21 +945,39 @@ func c27Exec(r *gosim.Run) {
 			}
 		case "touch":
 			target, nb := w.node(o.Arg(1)), w.node(o.Arg(2))
-			mark := func() {
+			var hit []*c27Path
+			mark := func(begin bool) {
 				w.mu.Lock()
 				w.seq++
+				if begin {
+					for _, k := range w.sortedKeys() {
+						m := w.paths[k]
+						if len(m.items) >= 2 && m.last() == nb && m.containsBeforeLast(target) {
+							hit = append(hit, m)
+							m.useBusy++
+							if m.killBusy > 0 && m.saved && !m.dead {
+								r.Count("probe_use_kill_overlap")
+							}
+						}
+					}
+				}
 				for _, m := range w.paths {
 					if len(m.items) >= 2 && m.last() == nb && m.containsBeforeLast(target) {
 						m.touched = r.Now()
 						m.touchSeq = w.seq
 					}
 				}
+				if !begin {
+					for _, m := range hit {
+						m.useBusy--
+					}
+				}
 				w.mu.Unlock()
 			}
-			mark()
+			mark(true)
 			r.Logf("touch t=%d nb=%d", target, nb)
 			w.tab().VerifUpdateUsedTime(w.addrs[target], w.addrs[nb])
-			mark()
+			mark(false)
 		case "sleep":
 			d := o.Arg(1)
 			if d < 0 {
